@@ -1,8 +1,8 @@
 #!/bin/sh
-# runs every registered check once on the current /repo; usage: tools/run_all.sh [tier] [seed]
-T="${1:-quick}"; S="${2:-0}"
+# runs every registered check once on the current /repo; usage: tools/run_all.sh [tier] [seed] [first check number]
+T="${1:-quick}"; S="${2:-0}"; FROM="${3:-1}"
 cd "$(dirname "$0")/.."
-for i in $(seq -w 1 19); do
+for i in $(seq -w $FROM 19); do
   c=C$i
   /usr/bin/time -f "%e s" ./check $c --tier $T --seed $S > /tmp/runall_$$_${c}_${T}_${S}.log 2>&1; rc=$?
   v=$(grep -c "^VIOLATION" /tmp/runall_$$_${c}_${T}_${S}.log); k=$(grep -c "^KNOWN-FINDING" /tmp/runall_$$_${c}_${T}_${S}.log)
